@@ -12,6 +12,8 @@ ranges = []
 for m in anch.get("mechanism", []) + anch.get("state", []):
     for mm in re.finditer(r"(src/[\w./-]+):(\d+)(?:-(\d+))?", m.get("where", "")):
         ranges.append((mm.group(1), int(mm.group(2)), int(mm.group(3) or mm.group(2))))
+if os.environ.get("PROBE_RANGES"):        # e.g. PROBE_RANGES="src/canonicalize.rs:754-1200": probe one mechanism instead of all the anchors
+    ranges = [(mm.group(1), int(mm.group(2)), int(mm.group(3) or mm.group(2))) for mm in re.finditer(r"(src/[\w./-]+):(\d+)(?:-(\d+))?", os.environ["PROBE_RANGES"])]
 MUT = [(r"==", "!="), (r"!=", "=="), (r"&&", "||"), (r"\|\|", "&&"), (r"<=", "<"), (r">=", ">"), (r"(?<![<>=!-])<(?![<=])", "<="), (r"(?<![<>=!-])>(?![>=])", ">="),
        (r"\+ 1\b", "+ 0"), (r"- 1\b", "- 0"), (r"\btrue\b", "false"), (r"\bfalse\b", "true"), (r"\.is_empty\(\)", ".len() > 1"), (r"\bif !", "if "), (r"\.is_some\(\)", ".is_none()"),
        (r"\.is_none\(\)", ".is_some()"), (r"\b0\b", "1"), (r"\b1\b", "2"), (r"\b3\b", "2")]
